@@ -135,6 +135,10 @@ func (a *smAn) inlineTarget(call *ast.CallExpr, depth int) *ast.FuncDecl {
 			interesting = true
 		}
 	}
+	// a helper that picks the encode set (by scheme class, by option): the component tables read which one
+	if sig.Results().Len() == 1 && isNamed(sig.Results().At(0).Type(), "PercentEncodeSet") {
+		interesting = true
+	}
 	// predicates over the URL and helpers that pick an encoder are part of the decisions the rules read
 	if sig.Results().Len() == 1 {
 		if b, ok := sig.Results().At(0).Type().Underlying().(*types.Basic); ok && (b.Kind() == types.Bool || b.Kind() == types.String) {
